@@ -156,6 +156,14 @@ def canon_equal(gen_tok, v):
     if gen_tok == 'n':
         return v is None or (isinstance(v, bytes) and len(v) > 0 and set(v) == {0xff})
     ok, _ = B.value_matches(gen_tok, v)
+    if not ok and gen_tok[0] == 'd' and isinstance(v, float):
+        # a generated decimal with more than 53 significant bits is not a double: what was encoded
+        # is the nearest double, and what reads back may differ from the exact decimal by one
+        # rounding of that magnitude (half a unit of the last scaled digit is far below it)
+        m, s = gen_tok[1:].split(':')
+        if abs(int(m)) >= 2 ** 52:
+            exact = B.nearest_double(int(m), int(s))
+            return abs(v - exact) <= abs(exact) * 2.0 ** -50
     return ok
 
 
